@@ -212,6 +212,46 @@ def crashAt (ops : List FsOp) (n : Nat) (m : Option Nat) : List FsOp :=
     | some m, some (.write f c) => [.write f (c.take m)]
     | _, _ => []
 
+/-! ## the second way a save can fail: an **exception** raised inside one of its `write` calls
+
+(a second Ctrl-C, a signal handler that raises, a full disk …): Python unwinds, the `with` blocks / `finally` clauses
+that enclose the failing statement run their clean-up, then the exception leaves `save` and the process ends.  The
+translator records for every statement whether it is such a clean-up and for which region. -/
+
+structure XStmt where
+  stmt : Stmt
+  /-- `some a`: the statement is also executed while an exception raised by statement `i` with `a ≤ i <` (its own
+  index) unwinds (`__exit__` of the `with` block opened at `a - 1`, or a `finally` clause protecting `a …`) -/
+  unwindFrom : Option Nat := none
+deriving DecidableEq, Repr
+
+/-- the code as it is now: two `with open(tmp) as f:` blocks — on unwinding only the file is closed -/
+def saveTableX : List XStmt :=
+  [⟨.openW .modelTmp, none⟩, ⟨.writePayload .modelTmp, none⟩, ⟨.closeF .modelTmp, some 1⟩, ⟨.replace .modelTmp .model, none⟩,
+   ⟨.openW .lastTmp, none⟩, ⟨.writeLabel .lastTmp, none⟩, ⟨.closeF .lastTmp, some 5⟩, ⟨.replace .lastTmp .last, none⟩]
+
+/-- **"no rename (nothing but closing a file) on the exceptional path"** -/
+def wfUnwind (xt : List XStmt) : Bool :=
+  xt.all fun x => x.unwindFrom.isNone || (match x.stmt with | .closeF _ => true | _ => false)
+
+/-- index of the statement the `n`-th operation of the instantiated table belongs to -/
+def stmtOfOp (it : Int) (chunks : List Bytes) : List Stmt → Nat → Nat
+  | [], _ => 0
+  | s :: r, n =>
+    let k := (instStmt it chunks s).length
+    if n < k then 0 else stmtOfOp it chunks r (n - k) + 1
+
+/-- the clean-up operations executed while an exception raised by statement `i` unwinds -/
+def unwindOps (xt : List XStmt) (it : Int) (chunks : List Bytes) (i : Nat) : List FsOp :=
+  (xt.zipIdx.filter fun xj => decide (xj.2 > i) && (match xj.1.unwindFrom with | some a => decide (a ≤ i) | none => false)).flatMap
+    fun xj => instStmt it chunks xj.1.stmt
+
+/-- everything executed when the `write` that is operation `n` raises after `m` bytes: the operations before it, the
+partial write, the clean-up of the enclosing blocks -/
+def excOps (xt : List XStmt) (it : Int) (chunks : List Bytes) (n m : Nat) : List FsOp :=
+  let t := xt.map (·.stmt)
+  crashAt (opsOf t it chunks) n (some m) ++ unwindOps xt it chunks (stmtOfOp it chunks t n)
+
 /-! ## `Checkpointer.load("latest")` -/
 
 inductive LoadErr where
